@@ -37,6 +37,8 @@ class StdHooks(KernelHooks):
         return KernelHooks.external_call(self, it, name, node, args, this_cell)
 
     def vector_call(self, it, elem, meth, node, args, this_cell):
+        if not meth.startswith('operator'):
+            meth = meth.split('<')[0]
         if meth == 'vector':
             # constructors: (n, alloc) value-initialises; () empty; copy
             if this_cell is None:
